@@ -9,7 +9,11 @@
    callable Hamiltonian) applied to p0 - on the left for a ket, on both sides
    for a density operator.  `propagator_laws` (C18/Model.v) is the oracle
    contract of the numeric routines; `steps` is the integrator's arbitrary
-   choice of intermediate steps. *)
+   choice of intermediate steps.  `near` is the coded test of
+   _update_to_integrate ("t is where the stepper already is, up to 4 ulp") and
+   `skip` says whether the code version has it; `resolved near skip (t0 :: ts)`
+   says the requested times are not closer to each other than that test
+   resolves (C18_skip_rule_exact: always true for dyadic times < 2^50 units). *)
 From Coq Require Import ZArith List Bool.
 From QV Require Import C18.Model C18.Proofs.
 Import ListNotations.
@@ -20,11 +24,11 @@ Import ListNotations.
 Theorem C18_evolution_sound :
   forall (T Op St : Type) (tzero : T) (tadd tsub : T -> T -> T) (oid : Op) (ocomp : Op -> Op -> Op)
          (U : T -> Op) (P : T -> T -> Op) (actL actR : Op -> St -> St) (steps : T -> T -> list T)
-         (teqb : T -> T -> bool) (skip : bool),
-  propagator_laws T Op St tzero tadd tsub oid ocomp U P actL actR teqb ->
+         (near : T -> T -> bool) (skip : bool),
+  propagator_laws T Op St tzero tadd tsub oid ocomp U P actL actR ->
   forall v c r m q, construct v c = Accepted r m q -> unsound_cell v c = false ->
-  forall (t0 : T) (p0 : St) (ts : list T),
-    let s := run T Op St tsub U P actL actR steps teqb skip (init T St r m q t0 p0) ts in
+  forall (t0 : T) (p0 : St) (ts : list T), resolved T near skip (t0 :: ts) ->
+    let s := run T Op St tsub U P actL actR steps near skip (init T St r m q t0 p0) ts in
     get_pt T St s = spec_state T Op St tsub U P actL actR c t0 p0 (last ts t0)
     /\ get_t T St s = last ts t0.
 Proof. exact evolution_sound. Qed.
@@ -35,13 +39,13 @@ Print Assumptions C18_evolution_sound.
 Theorem C18_at_times_sound :
   forall (T Op St : Type) (tzero : T) (tadd tsub : T -> T -> T) (oid : Op) (ocomp : Op -> Op -> Op)
          (U : T -> Op) (P : T -> T -> Op) (actL actR : Op -> St -> St) (steps : T -> T -> list T)
-         (teqb : T -> T -> bool) (skip : bool),
-  propagator_laws T Op St tzero tadd tsub oid ocomp U P actL actR teqb ->
+         (near : T -> T -> bool) (skip : bool),
+  propagator_laws T Op St tzero tadd tsub oid ocomp U P actL actR ->
   forall v c r m q, construct v c = Accepted r m q -> unsound_cell v c = false ->
-  forall (t0 : T) (p0 : St) (ts : list T),
+  forall (t0 : T) (p0 : St) (ts : list T), resolved T near skip (t0 :: ts) ->
     Forall2 (fun t p => p = spec_state T Op St tsub U P actL actR c t0 p0 t) ts
-            (at_times T Op St tsub U P actL actR steps teqb skip (init T St r m q t0 p0) ts)
-    /\ clocks T Op St tsub U P actL actR steps teqb skip (init T St r m q t0 p0) ts = ts.
+            (at_times T Op St tsub U P actL actR steps near skip (init T St r m q t0 p0) ts)
+    /\ clocks T Op St tsub U P actL actR steps near skip (init T St r m q t0 p0) ts = ts.
 Proof. exact at_times_sound. Qed.
 Print Assumptions C18_at_times_sound.
 
@@ -51,11 +55,11 @@ Print Assumptions C18_at_times_sound.
 Theorem C18_callbacks_see_state :
   forall (T Op St : Type) (tzero : T) (tadd tsub : T -> T -> T) (oid : Op) (ocomp : Op -> Op -> Op)
          (U : T -> Op) (P : T -> T -> Op) (actL actR : Op -> St -> St) (steps : T -> T -> list T)
-         (teqb : T -> T -> bool) (skip : bool),
-  propagator_laws T Op St tzero tadd tsub oid ocomp U P actL actR teqb ->
+         (near : T -> T -> bool) (skip : bool),
+  propagator_laws T Op St tzero tadd tsub oid ocomp U P actL actR ->
   forall v c r m q, construct v c = Accepted r m q -> unsound_cell v c = false ->
-  forall (t0 : T) (p0 : St) (ts : list T),
-    let s := run T Op St tsub U P actL actR steps teqb skip (init T St r m q t0 p0) ts in
+  forall (t0 : T) (p0 : St) (ts : list T), resolved T near skip (t0 :: ts) ->
+    let s := run T Op St tsub U P actL actR steps near skip (init T St r m q t0 p0) ts in
     Forall (fun tp => snd tp = spec_state T Op St tsub U P actL actR c t0 p0 (fst tp)) (s_results T St s)
     /\ (r <> R_integrate -> rev (map fst (s_results T St s)) = ts).
 Proof. exact callbacks_sound. Qed.
@@ -67,12 +71,12 @@ Print Assumptions C18_callbacks_see_state.
 Theorem C18_conserved_quantities :
   forall (T Op St : Type) (tzero : T) (tadd tsub : T -> T -> T) (oid : Op) (ocomp : Op -> Op -> Op)
          (U : T -> Op) (P : T -> T -> Op) (actL actR : Op -> St -> St) (steps : T -> T -> list T)
-         (teqb : T -> T -> bool) (skip : bool),
-  propagator_laws T Op St tzero tadd tsub oid ocomp U P actL actR teqb ->
+         (near : T -> T -> bool) (skip : bool),
+  propagator_laws T Op St tzero tadd tsub oid ocomp U P actL actR ->
   forall v c r m q, construct v c = Accepted r m q -> unsound_cell v c = false ->
   forall (V : Type) (f : St -> V), (forall u x, f (act Op St actL actR (c_isdop c) u x) = f x) ->
-  forall (t0 : T) (p0 : St) (ts : list T),
-    f (get_pt T St (run T Op St tsub U P actL actR steps teqb skip (init T St r m q t0 p0) ts)) = f p0.
+  forall (t0 : T) (p0 : St) (ts : list T), resolved T near skip (t0 :: ts) ->
+    f (get_pt T St (run T Op St tsub U P actL actR steps near skip (init T St r m q t0 p0) ts)) = f p0.
 Proof. exact conserved. Qed.
 Print Assumptions C18_conserved_quantities.
 
@@ -82,10 +86,10 @@ Print Assumptions C18_conserved_quantities.
 Theorem C18_state_is_trace_replay :
   forall (T Op St : Type) (tzero : T) (tadd tsub : T -> T -> T) (oid : Op) (ocomp : Op -> Op -> Op)
          (U : T -> Op) (P : T -> T -> Op) (actL actR : Op -> St -> St) (steps : T -> T -> list T)
-         (teqb : T -> T -> bool) (skip : bool),
-  propagator_laws T Op St tzero tadd tsub oid ocomp U P actL actR teqb ->
+         (near : T -> T -> bool) (skip : bool),
+  propagator_laws T Op St tzero tadd tsub oid ocomp U P actL actR ->
   forall r m q (t0 : T) (p0 : St) (ts : list T),
-    let s := run T Op St tsub U P actL actR steps teqb skip (init T St r m q t0 p0) ts in
+    let s := run T Op St tsub U P actL actR steps near skip (init T St r m q t0 p0) ts in
     replay_trace T Op St tsub U P actL actR q p0 (rev (s_trace T St s)) = cur_state T St s.
 Proof. exact trace_replay. Qed.
 Print Assumptions C18_state_is_trace_replay.
@@ -151,11 +155,21 @@ Theorem C18_solve_dim2_refuted :
 Proof. exists c_solve_dim2. exact solve_dim2_refuted_witness. Qed.
 Print Assumptions C18_solve_dim2_refuted.
 
+(* the coded skip test |t - tc| <= 4 * 2^-52 * max(|t|, |tc|) separates every two
+   distinct times of the dyadic grid below 2^50 grid units - however small the
+   increment is RELATIVE to the current time (t0 = 256 with dt = 2^-10, t = 64
+   with dt = 2^-13, ...): no requested time is skipped unless it is the time
+   the stepper is at. *)
+Theorem C18_skip_rule_exact : forall skip (l : list Z),
+  Forall (fun t => (Z.abs t < 2 ^ 50)%Z) l -> resolved Z ZI.near skip l.
+Proof. exact ZI_resolved. Qed.
+Print Assumptions C18_skip_rule_exact.
+
 (* non-vacuity: the integer instance satisfies the contract, so the theorems
    above apply to it; and concrete runs of the model *)
 Example C18_examples :
-  propagator_laws Z Z (Z * Z) 0%Z Z.add ZI.tsub 0%Z Z.add ZI.U ZI.P ZI.actL ZI.actR ZI.teqb
-  /\ (forall skip ts, ZI.zget_pt (ZI.zrun skip (init Z ZI.St R_solved_dop M_solve None 4%Z ZI.p0) ts)
+  propagator_laws Z Z (Z * Z) 0%Z Z.add ZI.tsub 0%Z Z.add ZI.U ZI.P ZI.actL ZI.actR
+  /\ (forall skip ts, Forall (fun t => (Z.abs t < 2 ^ 50)%Z) (4%Z :: ts) -> ZI.zget_pt (ZI.zrun skip (init Z ZI.St R_solved_dop M_solve None 4%Z ZI.p0) ts)
                  = ZI.zspec (mk_config M_solve true H_sparse false false) 4%Z ZI.p0 (last ts 4%Z))
   /\ ZI.observe current (mk_config M_expm false H_sparse false false) 4%Z [10; 10; 16; 8]%Z
      = ZI.mk_obs (Accepted R_expm_ket M_expm None) [10; 10; 16; 8]%Z
@@ -168,13 +182,20 @@ Example C18_examples :
      = (20, 20)%Z
   /\ ZI.o_trace (ZI.observe (mk_version EDP_twosided true true) (mk_config M_integrate true H_dense false false) 4%Z [10; 10; 12]%Z)
      = [Ev_int 4%Z 10%Z; Ev_int 10%Z 12%Z]
+  (* t0 = 256, increments 2^-10 (times in units of 2^-13): nothing but the exact repeat is skipped *)
+  /\ ZI.observe (mk_version EDP_twosided true true) (mk_config M_integrate false H_dense false false)
+                2097152%Z [2097160; 2097160; 2097168]%Z
+     = ZI.mk_obs (Accepted R_integrate M_integrate (Some Q_ket)) [2097160; 2097160; 2097168]%Z
+                 [Ev_int 2097152%Z 2097160%Z; Ev_int 2097160%Z 2097168%Z] [2097152; 2097156; 2097160; 2097160; 2097164; 2097168]%Z
+  (* the test is a genuine few-ulp test, not equality: beyond 2^50 units neighbours coincide *)
+  /\ ZI.near (2 ^ 60) (2 ^ 60 + 1) = true /\ ZI.near 2097152 2097153 = false
   /\ construct current (mk_config M_other false H_tuple false false) = Accepted R_solved_ket M_solve None
   /\ construct current (mk_config M_expm false H_linop false false) = Raised E_Type.
 Proof.
   split; [exact ZI_laws|]. split.
-  - intros skip ts.
+  - intros skip ts Hts.
     exact (proj1 (evolution_sound Z Z (Z * Z)%type 0%Z Z.add ZI.tsub 0%Z Z.add ZI.U ZI.P ZI.actL ZI.actR
-                   ZI.steps ZI.teqb skip ZI_laws current (mk_config M_solve true H_sparse false false)
-                   R_solved_dop M_solve None eq_refl eq_refl 4%Z ZI.p0 ts)).
+                   ZI.steps ZI.near skip ZI_laws current (mk_config M_solve true H_sparse false false)
+                   R_solved_dop M_solve None eq_refl eq_refl 4%Z ZI.p0 ts (ZI_resolved skip _ Hts))).
   - vm_compute. repeat split.
 Qed.
